@@ -27,8 +27,23 @@ Definition Ipj (c : cls) (setting : list (ustring * pval)) : Prop :=
 Definition Ireq (c : cls) (setting : list (ustring * pval)) : Prop :=
   forall s, In s (cslots c) -> sreq s = true -> amem (sname s) setting = true.
 
+(* the value of a MarkingProperty: an object wrapped by the class __init__ -- truthy exactly when its
+   serialization is, and its `tlp` member is never elided *)
+Definition mark_ok (x : pval) : Prop :=
+  ptruthy x = truthy (encode false x) /\
+  forall k inner dfl hc, x = PObject k inner dfl hc -> mem_ustr (u "tlp") dfl = false.
+
+Definition Imark (c : cls) (setting : list (ustring * pval)) : Prop :=
+  forall s x, In s (cslots c) -> is_marking_kind (skind s) = true -> alookup (sname s) setting = Some x -> mark_ok x.
+
 Definition Imodel (c : cls) (setting : list (ustring * pval)) : Prop :=
-  Itime c setting /\ Ipj c setting /\ Ireq c setting.
+  Itime c setting /\ Ipj c setting /\ Ireq c setting /\ Imark c setting.
+
+Lemma mark_ok_pj j : mark_ok (PJ j).
+Proof. split; [reflexivity|]. intros; discriminate. Qed.
+
+Lemma Imark_nil c : Imark c [].
+Proof. intros s x _ _ H. discriminate H. Qed.
 
 Lemma Ipj_nil c : Ipj c [].
 Proof. intros s x _ _ H. discriminate H. Qed.
@@ -39,11 +54,14 @@ Lemma Imodel_aset_pj c key j setting :
   (forall s, In s (cslots c) -> sname s = key -> is_time_kind (skind s) = false) ->
   Imodel c (aset key (PJ j) setting).
 Proof.
-  intros (HT & HP & HR) Hk. split; [apply Itime_aset_other; auto|]. split.
+  intros (HT & HP & HR & HK) Hk. split; [apply Itime_aset_other; auto|]. split; [|split].
   - intros s x Hs Hp Hx. destruct (ustr_eqb (sname s) key) eqn:E.
     + apply ustr_eqb_eq in E. rewrite E, alookup_aset_same in Hx. injection Hx as <-. exists j. reflexivity.
     + rewrite alookup_aset_other in Hx by auto. eapply HP; eauto.
   - intros s Hs Hr. rewrite amem_aset. rewrite (HR s Hs Hr). apply orb_true_r.
+  - intros s x Hs Hm Hx. destruct (ustr_eqb (sname s) key) eqn:E.
+    + apply ustr_eqb_eq in E. rewrite E, alookup_aset_same in Hx. injection Hx as <-. apply mark_ok_pj.
+    + rewrite alookup_aset_other in Hx by auto. eapply HK; eauto.
 Qed.
 
 (* ---- what clean returns for those kinds ---- *)
@@ -74,18 +92,26 @@ Section Inv3.
     all: try (injection H as <- _; eauto; fail).
     all: try (injection Hb as <- _; eauto; fail).
     all: try (injection Hbb as <- _; eauto; fail).
+    all: try (apply bind_ok in Hb; destruct Hb as [a0 [_ Hb]]); cbv zeta in Hb; crush_pj Hb; injection Hb as <- _; eauto.
   Qed.
 
+  Hypothesis Hpad : vr_year_pad vr = true.
   Variable c : cls.
   Hypothesis Hnames : unodup (map sname (cslots c)) = true.
   Variables kwargs custom_props : list (ustring * jvalue).
+  (* what the class __init__ wrapped: nothing at a plain-valued property, marking values at marking ones *)
+  Variable pre : list (ustring * pval).
+  Hypothesis Hpre_t : forall n x, alookup n pre = Some x -> tnice x.
+  Hypothesis Hpre_pj : forall s, In s (cslots c) -> pj_kind (skind s) = true -> alookup (sname s) pre = None.
+  Hypothesis Hpre_mark : forall n x, alookup n pre = Some x -> mark_ok x.
 
-  Notation AR := (assign_raw kwargs custom_props []).
+  Notation AR := (assign_raw kwargs custom_props pre).
 
   Lemma assign_raw_at_pj n setting x :
+    alookup n pre = None ->
     alookup n (AR n setting) = Some x -> is_pj x \/ alookup n setting = Some x.
   Proof.
-    unfold assign_raw. cbn [alookup].
+    unfold assign_raw. intros ->.
     destruct (match alookup n kwargs with Some v => Some v | None => alookup n custom_props end) as [v|]; auto.
     destruct v as [| | | | |l|]; auto; try (rewrite alookup_aset_same; intros E; injection E as <-; left; eexists; reflexivity).
     destruct l; auto. rewrite alookup_aset_same. intros E. injection E as <-. left. eexists; reflexivity.
@@ -137,7 +163,7 @@ Section Inv3.
 
   Lemma assign_loop_pj allow interop vrefs : forall l setting hc setting' hc',
     Ipj c setting ->
-    assign_loop vr ev w rc rp ro c allow interop vrefs kwargs custom_props [] l setting hc = Ok (setting', hc') ->
+    assign_loop vr ev w rc rp ro c allow interop vrefs kwargs custom_props pre l setting hc = Ok (setting', hc') ->
     Ipj c setting' /\
     (forall s fv al, In s (cslots c) -> skind s = KFixed fv al -> sdef s = DFixed ->
                      In (sname s) l \/ alookup (sname s) setting = Some (PJ (JStr fv)) ->
@@ -147,7 +173,7 @@ Section Inv3.
     - simpl in H. injection H as <- _. split; auto. intros s fv al _ _ _ [[] | E]; auto.
     - cbn [assign_loop] in H. destruct (slot_of c n) as [s0|] eqn:Es.
       + destruct (slot_of_name _ _ _ Es) as [Hs0 Hn0]. inv_bind H. destruct a as [st2 h]. cbn [fst snd] in Hb.
-        destruct (check_property_time vr ev w rc rp ro c _ _ _ _ _ _ _ Ha) as [Hoth _].
+        destruct (check_property_time vr ev w rc rp ro Hpad c _ _ _ _ _ _ _ Ha) as [Hoth _].
         assert (Same : forall s, In s (cslots c) -> ustr_eqb (sname s) (sname s0) = true -> s = s0).
         { intros s Hs E. apply ustr_eqb_eq in E.
           pose proof (find_self_nodup (cslots c) s (unodup_NoDup _ Hnames) Hs) as A.
@@ -157,7 +183,9 @@ Section Inv3.
                      (forall x, alookup (sname s0) st2 = Some x -> is_pj x) /\
                      (forall fv al, skind s0 = KFixed fv al -> sdef s0 = DFixed -> alookup (sname s0) st2 = Some (PJ (JStr fv)))).
         { intros Hk. eapply check_property_pj; eauto.
-          intros x Hx. rewrite Hn0 in Hx. destruct (assign_raw_at_pj _ _ _ Hx) as [T | Hx2]; auto.
+          intros x Hx. rewrite Hn0 in Hx.
+          assert (Hnp : alookup n pre = None) by (rewrite <- Hn0; apply Hpre_pj; auto).
+          destruct (assign_raw_at_pj _ _ _ Hnp Hx) as [T | Hx2]; auto.
           rewrite <- Hn0 in Hx2. eapply HI; eauto. }
         assert (HI2 : Ipj c st2).
         { intros s x Hs Hk Hx. destruct (ustr_eqb (sname s) (sname s0)) eqn:E.
@@ -181,30 +209,93 @@ Section Inv3.
         * right. rewrite assign_raw_other by exact E. exact Hx.
   Qed.
 
-  (* the whole constructor, no class-specific wrapping *)
+  (* ---- marking-valued properties ---- *)
+  Lemma assign_raw_at_mark n setting x :
+    alookup n (AR n setting) = Some x -> mark_ok x \/ alookup n setting = Some x.
+  Proof.
+    unfold assign_raw. destruct (alookup n pre) as [pv|] eqn:Ep.
+    - rewrite alookup_aset_same. intros E. injection E as <-. left. eapply Hpre_mark; eauto.
+    - destruct (match alookup n kwargs with Some v => Some v | None => alookup n custom_props end) as [v|]; auto.
+      destruct v as [| | | | |l|]; auto; try (rewrite alookup_aset_same; intros E; injection E as <-; left; apply mark_ok_pj).
+      destruct l; auto. rewrite alookup_aset_same. intros E. injection E as <-. left. apply mark_ok_pj.
+  Qed.
+
+  Lemma check_property_mark s allow interop vrefs st st2 h :
+    check_property vr ev w rc rp ro c s allow interop vrefs st = Ok (st2, h) ->
+    is_marking_kind (skind s) = true ->
+    forall x, alookup (sname s) st2 = Some x -> mark_ok x \/ alookup (sname s) st = Some x.
+  Proof.
+    intros H Hk x Hx. unfold check_property in H. inv_bind H. destruct a as [st1 isnow]. cbn [fst snd] in Hb.
+    set (n := sname s) in *.
+    assert (D : forall y, alookup n st1 = Some y -> is_pj y \/ alookup n st = Some y).
+    { unfold default_value in Ha. fold n in Ha. destruct (alookup n st) as [x0|] eqn:El.
+      - injection Ha as <- <-. intros y Hy. right. rewrite <- Hy. auto.
+      - destruct (sdef s) eqn:Ed.
+        + injection Ha as <- <-. intros y Hy. congruence.
+        + destruct (skind s); try discriminate.
+        + destruct (skind s); try discriminate.
+        + destruct (skind s); try discriminate.
+        + injection Ha as <- <-. intros y Hy. rewrite alookup_aset_same in Hy. injection Hy as <-. left. eexists; reflexivity. }
+    unfold clean_present in Hb. fold n in Hb.
+    destruct (alookup n st1) as [raw|] eqn:El; [|injection Hb as <- _; congruence].
+    assert (Keep : st2 = st1 -> mark_ok x \/ alookup n st = Some x).
+    { intros ->. rewrite El in Hx. injection Hx as <-. destruct (D raw eq_refl) as [[j ->] | E]; auto. left. apply mark_ok_pj. }
+    destruct isnow; [injection Hb as <- _; auto|].
+    destruct raw as [j| | | |].
+    - destruct (skind s); try discriminate Hk. cbn [clean_kind] in Hb. discriminate.
+    - apply Keep. destruct (vr_marking_flag vr); [destruct (negb allow && _); try discriminate|]; injection Hb as <- _; auto.
+    - apply Keep. destruct (vr_marking_flag vr); [destruct (negb allow && _); try discriminate|]; injection Hb as <- _; auto.
+    - apply Keep. destruct (vr_marking_flag vr); [destruct (negb allow && _); try discriminate|]; injection Hb as <- _; auto.
+    - apply Keep. destruct (vr_marking_flag vr); [destruct (negb allow && _); try discriminate|]; injection Hb as <- _; auto.
+  Qed.
+
+  Lemma assign_loop_mark allow interop vrefs : forall l setting hc setting' hc',
+    Imark c setting ->
+    assign_loop vr ev w rc rp ro c allow interop vrefs kwargs custom_props pre l setting hc = Ok (setting', hc') ->
+    Imark c setting'.
+  Proof.
+    induction l as [|n rest IH]; intros setting hc setting' hc' HI H.
+    - simpl in H. injection H as <- _. exact HI.
+    - cbn [assign_loop] in H. destruct (slot_of c n) as [s0|] eqn:Es.
+      + destruct (slot_of_name _ _ _ Es) as [Hs0 Hn0]. inv_bind H. destruct a as [st2 h]. cbn [fst snd] in Hb.
+        destruct (check_property_time vr ev w rc rp ro Hpad c _ _ _ _ _ _ _ Ha) as [Hoth _].
+        eapply IH; [|exact Hb].
+        intros s x Hs Hk Hx. destruct (ustr_eqb (sname s) (sname s0)) eqn:E.
+        * apply ustr_eqb_eq in E.
+          assert (s = s0).
+          { pose proof (find_self_nodup (cslots c) s (unodup_NoDup _ Hnames) Hs) as A.
+            pose proof (find_self_nodup (cslots c) s0 (unodup_NoDup _ Hnames) Hs0) as B.
+            rewrite E in A. rewrite A in B. injection B as ->. reflexivity. }
+          subst s0. destruct (check_property_mark _ _ _ _ _ _ _ Ha Hk x Hx) as [T | Hx1]; auto.
+          rewrite Hn0 in Hx1. destruct (assign_raw_at_mark _ _ _ Hx1) as [T | Hx2]; auto.
+          rewrite <- Hn0 in Hx2. eapply HI; eauto.
+        * rewrite (Hoth _ E) in Hx. rewrite assign_raw_other in Hx by (rewrite <- Hn0; exact E). eapply HI; eauto.
+      + eapply IH; [|exact H].
+        intros s x Hs Hk Hx. rewrite assign_raw_other in Hx by (eapply slot_of_none; eauto). eapply HI; eauto.
+  Qed.
+
+  (* the whole constructor *)
   Lemma construct_generic_model pok sok fuel allow interop kwargs0 vrefs o :
-    vr_year_pad vr = true ->
     kwargs = aremove (u "custom_properties") kwargs0 ->
     custom_props = match alookup (u "custom_properties") kwargs0 with Some (JObj m) => m | _ => [] end ->
-    construct_generic vr ev w pok sok rc rp ro fuel c allow interop kwargs0 [] vrefs = Ok o ->
+    construct_generic vr ev w pok sok rc rp ro fuel c allow interop kwargs0 pre vrefs = Ok o ->
     exists setting hc, o = PObject (cid c) setting (defaulted_names c setting) hc /\ Imodel c setting /\
       (forall s fv al, In s (cslots c) -> skind s = KFixed fv al -> sdef s = DFixed ->
                        alookup (sname s) setting = Some (PJ (JStr fv))).
   Proof.
-    intros Hpad Ek Ec H. unfold construct_generic in H. inv_bind H.
+    intros Ek Ec H. unfold construct_generic in H. inv_bind H.
     assert (Ea : a = custom_props).
     { rewrite Ec. destruct (alookup (u "custom_properties") kwargs0) as [[| | | | | |m]|]; try (injection Ha as <-; reflexivity);
         try (destruct (truthy _); discriminate). }
     subst a. rewrite <- Ek in Hb. inv_bind Hb. cbv zeta in Hbb.
-    assert (Hpt : forall (m : ustring) (x : pval), alookup m (@nil (ustring * pval)) = Some x -> tnice x)
-      by (intros m x Hx; discriminate Hx).
     match type of Hbb with
     | context [match ?ck with [] => _ | _ :: _ => _ end] => destruct ck; destruct allow
     end; try discriminate.
     all: match type of Hbb with (if ?b then _ else _) = _ => destruct b; try discriminate end.
     all: inv_bind Hbb; destruct a0 as [setting hc]; cbn [bind] in Hbbb.
-    all: pose proof (assign_loop_time vr ev w rc rp ro Hpad c Hnames _ _ _ Hpt _ _ _ _ _ _ _ _ (Itime_nil c) Hbba) as HT.
+    all: pose proof (assign_loop_time vr ev w rc rp ro Hpad c Hnames _ _ _ Hpre_t _ _ _ _ _ _ _ _ (Itime_nil c) Hbba) as HT.
     all: destruct (assign_loop_pj _ _ _ _ _ _ _ _ (Ipj_nil c) Hbba) as [HP HF].
+    all: pose proof (assign_loop_mark _ _ _ _ _ _ _ _ (Imark_nil c) Hbba) as HK.
     all: match type of Hbbb with (if ?b then _ else _) = _ => destruct b eqn:Emiss; try discriminate end.
     all: inv_bind Hbbb; inv_bind Hbbbb.
     all: assert (HR : Ireq c setting)
@@ -215,6 +306,7 @@ Section Inv3.
                                        alookup (sname s) setting = Some (PJ (JStr fv)))
       by (intros s fv al Hs Ek' Ed; apply (HF s fv al Hs Ek' Ed); left; apply in_or_app; left; apply in_map; exact Hs).
     all: repeat match type of Hbbbbb with (if ?b then _ else _) = _ => destruct b; try discriminate end.
-    all: injection Hbbbbb as <-; exists setting; eexists; split; [reflexivity|]; split; [split; [exact HT|split; [exact HP|exact HR]]|exact HF'].
+    all: injection Hbbbbb as <-; exists setting; eexists; split; [reflexivity|];
+      split; [split; [exact HT|split; [exact HP|split; [exact HR|exact HK]]]|exact HF'].
   Qed.
 End Inv3.
